@@ -403,6 +403,32 @@ func checkC09(c *Ctx, r *Report) {
 	// ---- rule 5: what a session-less send transmits was serialised for it. The serialise
 	// buffer is shared with the sessions opened from the connection, so a datagram left in it
 	// may be an in-session one (with a session ID and a sequence number already used).
+	checkSessionlessSerialisedAfresh(c, r, sessless)
+
+	// ---- rule 6: one Transport.Send is one datagram. The counter rules above count calls of
+	// Send; they say something about datagrams only if the transport writes the packet it is
+	// given exactly once (rule shared with C11, C10)
+	checkOneWriteOneRead(c, r)
+
+	// ---- rule 7: and there is no other way out: every Transport.Send call is in a retried
+	// operation, where the rules above apply (shared with C04, C10, C13, C18)
+	checkSendSites(c, r)
+
+	// ---- rule 8: which session a datagram claims to belong to does not change under it
+	checkSessionIDWriters(c, r)
+}
+
+// checkSessionlessSerialisedAfresh: rule 5 of C09, shared with C10 ("each retransmission is a
+// complete encoding of that same command": a command value sent again after its request was
+// changed must be encoded again, not replayed from the buffer).
+func checkSessionlessSerialisedAfresh(c *Ctx, r *Report, sessless []SendClosure) {
+	if sessless == nil {
+		for _, s := range c.SendClosures() {
+			if !s.Session {
+				sessless = append(sessless, s)
+			}
+		}
+	}
 	r.Rule("sessionless-serialised-afresh", "every session-less transmission is preceded, in the same operation, by the serialisation of its packet into the buffer: a packet left in the buffer by an earlier (possibly in-session) command is never sent again", 2)
 	for _, s := range sessless {
 		if s.Send == nil {
@@ -423,16 +449,4 @@ func checkC09(c *Ctx, r *Report) {
 		}
 		r.Check(ok, c.FnName(s.Parent)+"|serialised before send", s.Send.Pos(), "SerializeLayers precedes the transmission on every path", "a path reaches the transmission without the packet having been serialised in this operation: whatever the shared buffer holds — possibly an in-session datagram of a session opened from this connection — is sent again")
 	}
-
-	// ---- rule 6: one Transport.Send is one datagram. The counter rules above count calls of
-	// Send; they say something about datagrams only if the transport writes the packet it is
-	// given exactly once (rule shared with C11, C10)
-	checkOneWriteOneRead(c, r)
-
-	// ---- rule 7: and there is no other way out: every Transport.Send call is in a retried
-	// operation, where the rules above apply (shared with C04, C10, C13, C18)
-	checkSendSites(c, r)
-
-	// ---- rule 8: which session a datagram claims to belong to does not change under it
-	checkSessionIDWriters(c, r)
 }
